@@ -127,6 +127,10 @@ func versionEvaluator(c *Ctx, sc verScenario, header bool) *symEval {
 				return []sval{sv("HDR(" + s + ")")}, true
 			}
 		case "mime.ParseMediaType":
+			if args[0].e != "HDR(Accept)" {
+				// what is parsed is not the (single) Accept header value
+				return []sval{{e: "TUPLE", tuple: []sval{sv("MT?"), sv("PS?"), sv("PERR?")}}}, true
+			}
 			return []sval{{e: "TUPLE", tuple: []sval{sv("MT"), sv("PS"), sv("PERR")}}}, true
 		case "slices.Contains":
 			return []sval{sv("CONTAINS(" + args[0].e + "," + args[1].e + ")")}, true
@@ -197,7 +201,7 @@ func ruleVersionMatcherSemantics(c *Ctx, rulePath, ruleHeader string) {
 				return e
 			}},
 		{ruleHeader, "mux.(*headerVersion).Match", true,
-			[]verScenario{{match: true, named: true}, {match: true}, {named: true}, {noHeader: true, named: true}, {parseErr: true, named: true}},
+			[]verScenario{{match: true, named: true}, {match: true}, {named: true}, {noHeader: true, named: true}, {noHeader: true, match: true, named: true}, {parseErr: true, named: true}, {parseErr: true, match: true, named: true}},
 			func(sc verScenario) []string {
 				if sc.named {
 					return []string{"SET(PNAME,PVER)"}
